@@ -583,6 +583,21 @@ func init() {
 		}
 		return tuple{v, iface{}}
 	})
+	reg("github.com/tebeka/atexit.Register", nop)
+	lr := "github.com/sirupsen/logrus"
+	for _, n := range []string{"WithField", "WithFields", "WithError"} {
+		reg(lr+"."+n, func(fr *frame, args []value) value { return (*value)(nil) })
+		reg("(*"+lr+".Entry)."+n, func(fr *frame, args []value) value { return (*value)(nil) })
+	}
+	for _, n := range []string{"Info", "Infof", "Debug", "Debugf", "Warn", "Warnf", "Error", "Errorf", "Print", "Printf", "Println", "Infoln"} {
+		reg("(*"+lr+".Entry)."+n, nop)
+		reg(lr+"."+n, nop)
+	}
+	for _, n := range []string{"Panic", "Panicf", "Fatal", "Fatalf"} {
+		reg("(*"+lr+".Entry)."+n, func(fr *frame, args []value) value {
+			panic(targetPanic{iface{t: types.Typ[types.String], v: "logrus panic: " + fmt.Sprint(nativeArgs(args[len(args)-1])...)}})
+		})
+	}
 	reg("flag.Parse", nop)
 	reg("flag.Parsed", func(fr *frame, args []value) value { return true })
 	reg("os.Getenv", func(fr *frame, args []value) value { return "" })
